@@ -10,6 +10,8 @@ for d in sorted((root / "seeded").iterdir()):
         continue
     j = json.loads(m.read_text())
     note = j.get("note", "")
+    if j.get("retired"):
+        note = ("RETIRED: " + j["retired"] + ("; " + note if note else ""))
     need = j.get("needs_to_manifest", "")
     missed = "MISSED" in need or "MISSED" in note
     rows.append((d.name, j.get("breaks_property", ""), need.replace("|", "/"), ", ".join(j.get("caught_by_quick_checks", [])),
